@@ -1079,6 +1079,28 @@ func TestWriteTemplates(t *testing.T) {
 			}
 		}
 	}
+	// tasks called what flags and actions are called, asked for by name from the project and from below it
+	var fl strings.Builder
+	fl.WriteString("V := \"value\"\n\n")
+	flagLike := []string{"init", "fmt", "clean", "show", "vars", "version", "help", "force", "spokfile", "json", "quiet", "debug"}
+	for _, n := range flagLike {
+		fmt.Fprintf(&fl, "# the task called %s\ntask %s(\"**/*.go\") {\n    echo %s {{.V}}\n}\n\n", n, n, n)
+	}
+	for _, dir := range []string{"", "proj [v2]", "my proj"} {
+		for _, nested := range []bool{false, true} {
+			for _, n := range flagLike {
+				for _, extra := range [][]string{nil, {"--force"}, {"--quiet"}} {
+					c := WriteCase{Tree: tree, Class: "valid", Src: fl.String(), Flags: extra, Tasks: []string{n}, Nested: nested, ProjDir: dir}
+					s.Eval()
+					s.Class("enumerated_tasks_named_like_flags")
+					if f := execWrite(s, b, c); f != nil && !seen[f.Sig] {
+						seen[f.Sig] = true
+						s.Violation("write", f.Sig, f.Msg, f.Size, c)
+					}
+				}
+			}
+		}
+	}
 	if s.Failed() {
 		t.Fatal("violations recorded")
 	}
